@@ -11,6 +11,10 @@ Boffs = {1}
 PBSet = {"none", "p7", "neg"}
 Trigs = {"open", "late"}
 FailCodes = {13, 14}
+MaxRPCs = 1
+ParkOn = FALSE
+HdrActs = {"HF", "MF"}
+UnprocActs = {"REF", "GOAWAY"}
 INIT Init
 NEXT Next
 INVARIANT I_NoViol
